@@ -57,16 +57,20 @@ vars == <<pool, nops, last, view>>
 Ids == 1..Len(pool)
 IsCls(i) == pool[i].kind = "cls"
 Root(i)  == IF pool[i].orig = 0 THEN i ELSE pool[i].orig
-FieldNames == {"a", "s", "b", "x", "y"}
+FieldNames == {"a", "s", "b", "x", "y", "m1", "m2", "n1", "d"}
 
 \* ---- the observable projection
 RECURSIVE Flat(_, _)
 \* flat declared fields of model i in pool p: parents first
 Flat(p, i) == (IF p[i].ext = 0 THEN <<>> ELSE Flat(p, p[i].ext)) \o p[i].own
 \* child attrs that apply to field f of model i (own and inherited chains of variants)
-RECURSIVE CaOf(_, _, _)
+\* the child attributes in force for field f of model i: what was requested for f by name
+\* (child_attrs, or child_attrs_all materialised when it was given), plus - for an INHERITED
+\* field - the remembered child_attrs_all (the parent link of such a variant is itself a variant
+\* of the parent carrying it)
+IsOwn(p, i, f) == \E k \in 1..Len(p[i].own) : p[i].own[k].n = f
 CaOf(p, i, f) == LET mine == SelectSeq(p[i].ca, LAMBDA c : c.f = f)
-                 IN [k \in 1..Len(mine) |-> mine[k].kw]
+                 IN [k \in 1..Len(mine) |-> mine[k].kw] \o (IF IsOwn(p, i, f) THEN <<>> ELSE p[i].caa)
 \* validation verdicts on probe values, as the attributes imply them:
 \* integers -1, 5, 7 (validate_native); texts of length 0, 3, 6 (validate_string)
 Verdicts(base, a) ==
@@ -75,7 +79,7 @@ Verdicts(base, a) ==
   ELSE <<>>
 FieldProj(p, i, fld) ==
   LET t == p[fld.t] IN
-  LET a == ApplyAll(ApplyAll(t.attrs, p[i].caa), CaOf(p, i, fld.n)) IN
+  LET a == ApplyAll(t.attrs, CaOf(p, i, fld.n)) IN
   [n |-> fld.n, base |-> t.base, attrs |-> a, verd |-> Verdicts(t.base, a)]
 Proj(p, i) ==
   [kind |-> p[i].kind, base |-> p[i].base, attrs |-> p[i].attrs, verd |-> Verdicts(p[i].base, p[i].attrs),
@@ -85,9 +89,12 @@ Proj(p, i) ==
                 ELSE LET fl == Flat(p, i) IN [k \in 1..Len(fl) |-> FieldProj(p, i, fl[k])] ]
 
 \* 1: Integer   2: Unicode   3: class A(a: Integer, s: Unicode)   4: class B(A)(b: Integer)
-Pool0 == << Prim("int"), Prim("str"), Cls(<<F("a", 1), F("s", 2)>>, 0), Cls(<<F("b", 1)>>, 3) >>
+\* 5: class D(Mx1, Mx2)(d: Integer) with mixins Mx1(m1: Integer, m2: Unicode), Mx2(n1: Integer):
+\*    mixin fields come first, mixins in base order, each in declaration order
+Pool0 == << Prim("int"), Prim("str"), Cls(<<F("a", 1), F("s", 2)>>, 0), Cls(<<F("b", 1)>>, 3),
+            Cls(<<F("m1", 1), F("m2", 2), F("n1", 1), F("d", 1)>>, 0) >>
 Init == /\ pool = Pool0 /\ nops = 0 /\ last = <<"init">>
-        /\ view = [j \in 1..4 |-> Proj(Pool0, j)]
+        /\ view = [j \in 1..Len(Pool0) |-> Proj(Pool0, j)]
 
 \* ---- derivation: each adds exactly one model
 Add(m, lbl) == /\ pool' = Append(pool, m) /\ nops' = nops + 1 /\ last' = lbl /\ nops < MaxOps
@@ -98,13 +105,31 @@ CustPrim(i, kw) ==
 Customize(i, kw) ==
   /\ IsCls(i) /\ kw \in {"min1", "nil0"}
   /\ Add([pool[i] EXCEPT !.attrs = Apply(@, kw), !.orig = Root(i)], <<"Customize", i, kw>>)
+\* child_attrs may also name a field that does not exist yet ("y"): the request is
+\* kept and applied when the field is added later (delayed child attrs)
 ChildAttrs(i, f, kw) ==
-  /\ IsCls(i) /\ \E k \in 1..Len(Flat(pool, i)) :
-                     Flat(pool, i)[k].n = f /\ kw \in KwFor(pool[Flat(pool, i)[k].t].base)
-  /\ Add([pool[i] EXCEPT !.ca = Append(@, [f |-> f, kw |-> kw]), !.orig = Root(i)], <<"ChildAttrs", i, f, kw>>)
+  /\ IsCls(i)
+  /\ \/ \E k \in 1..Len(Flat(pool, i)) :
+           Flat(pool, i)[k].n = f /\ kw \in KwFor(pool[Flat(pool, i)[k].t].base)
+     \/ (f = "y" /\ kw \in {"min1", "nil0"} /\ \A k \in 1..Len(Flat(pool, i)) : Flat(pool, i)[k].n # "y")
+  \* a request for a field that does not exist yet is kept in a dict keyed by field name
+  \* (Attributes._delayed_child_attrs): a later request for the same future field replaces it
+  /\ LET future == \A k \in 1..Len(Flat(pool, i)) : Flat(pool, i)[k].n # f
+         base == IF future THEN SelectSeq(pool[i].ca, LAMBDA c : c.f # f) ELSE pool[i].ca
+     IN Add([pool[i] EXCEPT !.ca = Append(base, [f |-> f, kw |-> kw]), !.orig = Root(i)], <<"ChildAttrs", i, f, kw>>)
+\* child_attrs_all: every field the class has NOW gets the attribute; for fields added LATER the
+\* request is remembered in caa - as the code does it (Attributes._delayed_child_attrs_all is
+\* assigned, not merged), a second child_attrs_all REPLACES what is remembered for future fields
 ChildAttrsAll(i, kw) ==
   /\ IsCls(i) /\ kw \in {"min1", "nil0"}
-  /\ Add([pool[i] EXCEPT !.caa = Append(@, kw), !.orig = Root(i)], <<"ChildAttrsAll", i, kw>>)
+  /\ LET fl == Flat(pool, i)
+         \* everything in force now is written down per field, then kw is added for each
+         RECURSIVE Mat(_)
+         Mat(k) == IF k > Len(fl) THEN <<>>
+                   ELSE LET cur == CaOf(pool, i, fl[k].n)
+                        IN [m \in 1..Len(cur) |-> [f |-> fl[k].n, kw |-> cur[m]]] \o << [f |-> fl[k].n, kw |-> kw] >> \o Mat(k + 1)
+         keep == SelectSeq(pool[i].ca, LAMBDA c : \A k \in 1..Len(fl) : fl[k].n # c.f)    \* requests for future fields
+     IN Add([pool[i] EXCEPT !.ca = keep \o Mat(1), !.caa = <<kw>>, !.orig = Root(i)], <<"ChildAttrsAll", i, kw>>)
 ArrayOf(i) ==
   /\ pool[i].kind \in {"prim", "cls"}
   /\ Add(Mk("arr", "arr", Attrs0, <<>>, 0, 0, <<>>, <<>>, i, [pool[i].attrs EXCEPT !.maxo = Inf]), <<"ArrayOf", i>>)
@@ -125,12 +150,18 @@ Fresh(i, n) == \A j \in Ids : (IsCls(j)) => \A k \in 1..Len(Flat(pool, j)) : Fla
 InsertAt(s, k, x) == SubSeq(s, 1, k) \o <<x>> \o SubSeq(s, k + 1, Len(s))
 AppendField(i, n, t) ==
   /\ nops < MaxOps /\ IsCls(i) /\ pool[t].kind = "prim" /\ pool[t].orig = 0 /\ Fresh(i, n)
-  /\ pool' = [j \in Ids |-> IF j \in Receivers(i) THEN [pool[j] EXCEPT !.own = Append(@, F(n, t))] ELSE pool[j]]
+  /\ pool' = [j \in Ids |-> IF j \in Receivers(i)
+                               THEN [pool[j] EXCEPT !.own = Append(@, F(n, t)),
+                                                    !.ca = @ \o [k \in 1..Len(pool[j].caa) |-> [f |-> n, kw |-> pool[j].caa[k]]]]
+                               ELSE pool[j]]
   /\ nops' = nops + 1 /\ last' = <<"AppendField", i, n, t>>
   /\ view' = [j \in Ids |-> Proj(pool', j)]
 InsertField(i, n, t) ==         \* at position 0 of the own fields
   /\ nops < MaxOps /\ IsCls(i) /\ pool[t].kind = "prim" /\ pool[t].orig = 0 /\ Fresh(i, n)
-  /\ pool' = [j \in Ids |-> IF j \in Receivers(i) THEN [pool[j] EXCEPT !.own = InsertAt(@, 0, F(n, t))] ELSE pool[j]]
+  /\ pool' = [j \in Ids |-> IF j \in Receivers(i)
+                               THEN [pool[j] EXCEPT !.own = InsertAt(@, 0, F(n, t)),
+                                                    !.ca = @ \o [k \in 1..Len(pool[j].caa) |-> [f |-> n, kw |-> pool[j].caa[k]]]]
+                               ELSE pool[j]]
   /\ nops' = nops + 1 /\ last' = <<"InsertField", i, n, t>>
   /\ view' = [j \in Ids |-> Proj(pool', j)]
 
